@@ -16,12 +16,29 @@ def chk(pid, category, text, note, technique, design_ref):
             "level_note": note, "technique": technique}
 
 
+TECH = "CBMC 6.11 code contracts on the real instantiated C sources (goto-instrument --dfcc enforce/replace, loop contracts; bounded groups: full unwinding with unwinding assertions)"
+NOTE = ("Trusted: CBMC 6.11, the GMP payload model (model/gmp_model.c), log/IO stubs; callees that are stubbed or assumed are named in the evidence "
+        "file's assumptions; only the functions listed in the evidence are decided; groups labelled bounded are stand-ins and are not counted as proved. ")
+
 CHECKS = [
+    chk("C01", "proof",
+        "Gating half: QSexact_solver (+ the real QSexact_basis_status) can return rval 0 with status OPTIMAL only after QSexact_optimal_test accepted exactly the vectors that are handed out; the 12-step precision ladder is completely unwound (compile-time bound re-read from exact.h, unwinding assertions on), callees outside exact.c are nondeterministic stubs.",
+        NOTE + "Not decided: the direct rational simplex entry points (their OPTIMAL is simplex correctness); the checker QSexact_optimal_test itself is only covered where its own group is listed in the evidence.",
+        TECH, "DESIGN.md 4/C01"),
+    chk("C02", "proof",
+        "Gating half: QSexact_solver can return rval 0 with status INFEASIBLE only after QSexact_infeasible_test accepted exactly the multipliers that are handed out (same group and configuration as C01).",
+        NOTE + "Not decided: that ILLsimplex_infcertificate produces a ray that passes (completeness).",
+        TECH, "DESIGN.md 4/C02"),
+    chk("C05", "proof",
+        "Invalidation half: every public edit wrapper of qsopt.c under contract: success drops the cached solution and marks the problem modified (I1), success of a matrix/dimension edit clears the factorization flag (I2), failure leaves cache/status/flag/basis untouched (I3); unbounded (loop-free) modular proofs with the library callee as a nondeterministic stub.",
+        NOTE + "Not decided: 'the next solve equals a from-scratch solve' (solver correctness).",
+        TECH, "DESIGN.md 4/C05"),
+    chk("C06", "proof",
+        "Queries and single-entry edits of lib.c under contract at ghost indices (stored value is the value returned / the value given); unbounded where the loop does not read through an index map, otherwise map length capped (stated per group).",
+        NOTE, TECH, "DESIGN.md 4/C06"),
     chk("C07", "proof",
-        "Unbounded modular proofs (CBMC dfcc contract enforcement, symbolic array sizes up to 30000, no unwinding) that the functions under contract reject invalid arguments with a non-zero code and an empty frame, with all pointer/bounds/overflow checks discharged; function list in evidence.",
-        "Trusted: CBMC, the GMP payload model, log stubs; callees not under contract are named in the evidence assumptions. Only the functions listed in the evidence are decided.",
-        "CBMC code contracts (dfcc enforce + conditional assigns frame) on the real instantiated C sources",
-        "DESIGN.md 4/C07"),
+        "Modular proofs (CBMC dfcc contract enforcement, symbolic array sizes up to 30000) that the functions under contract reject invalid arguments with a non-zero code and an empty frame (conditional assigns), with all pointer/bounds/overflow checks discharged.",
+        NOTE, TECH, "DESIGN.md 4/C07"),
 ]
 
 _NYB = "not built yet in this tree (planned in DESIGN.md); no check is registered, nothing is claimed"
@@ -32,4 +49,4 @@ NOT_APPLICABLE = [
     {"property_id": "C09", "reason": "same as C08 for the MPS format"},
     {"property_id": "C15", "reason": "relation between two solves of different inputs (2-safety); not a single-call contract"},
 ] + [{"property_id": p, "reason": _NYB} for p in
-     ["C01", "C02", "C05", "C06", "C10", "C11", "C12", "C13", "C14", "C16", "C17", "C18", "C19", "C20"]]
+     ["C10", "C11", "C12", "C13", "C14", "C16", "C17", "C18", "C19", "C20"]]
